@@ -294,3 +294,15 @@ Fixpoint seq_history (prog : list instr) (k : nat) (g0 : fn) : fn :=
    extraction of an AES-encrypted PDF sets and nothing ever clears *)
 Definition aes_step (patched : bool) (doc_needs_aes : bool) : bool := patched || doc_needs_aes.
 Definition aes_history (patched : bool) (docs : list bool) : bool := fold_left aes_step docs patched.
+
+(* when the AES fallback gets installed: today lazily (only when PdfReader's constructor fails for
+   want of AES, i.e. AES-256 files), repaired eagerly (before every open).  AES-128 files need the
+   provider only later, during decryption, where nothing installs it. *)
+Inductive pdf_kind := PlainPdf | AesAtOpen | AesLate.
+Definition aes_open (eager patched : bool) (k : pdf_kind) : bool :=
+  if eager then true else match k with AesAtOpen => true | _ => patched end.
+Definition aes_extract (eager patched : bool) (k : pdf_kind) : bool * bool :=
+  let p := aes_open eager patched k in
+  (match k with AesLate => p | _ => true end, p).     (* (extraction succeeds, patched afterwards) *)
+Definition aes_docs (eager patched : bool) (ks : list pdf_kind) : bool :=
+  fold_left (fun p k => snd (aes_extract eager p k)) ks patched.
